@@ -1,4 +1,6 @@
-CONSTANTS NN = 2
+CONSTANTS FlawNoHopBound = TRUE
+ FlawStatelessHandle = TRUE
+ NN = 2
  MaxNodes = 2
  MaxDepth = 2
  QLen = 2
